@@ -1639,6 +1639,9 @@ func (s *Sym) hashSumX(v *ssa.Call, core bool) *Term {
 	if core {
 		return ht
 	}
+	if sl, ok := v.Call.Args[0].(*ssa.Slice); ok && sl.High != nil && isZeroConst(sl.High) {
+		return ht // Sum(buf[:0]): nothing precedes the digest
+	}
 	pre := s.Of(v.Call.Args[0])
 	if pre.Op == "const" && pre.Name == "nil" {
 		return ht
